@@ -38,10 +38,17 @@ void h_configure(HConfig &cfg) {
   cfg.leak_check = false; cfg.cpu_limit_s = 120; cfg.wall_limit_s = 90; cfg.hang_is_violation = true; cfg.warm_xml = false;
 }
 
+#ifdef C17_PART_B
+static std::string native_sig(hwloc_topology_t t);
+static std::string g_native_ref;   // the native topology as discovered by the parent process before any case ran
+#endif
 void h_init_parent() {
   // the minimal XML backend only: libxml2 is not instrumented (DESIGN C17); critical-error banners off so that the static "reported" flag is never written
   setenv("HWLOC_LIBXML", "0", 1); setenv("HWLOC_HIDE_ERRORS", "2", 1);
   (void)corpus_xml_files();   // fill the function-static list before any thread exists
+#ifdef C17_PART_B
+  { hwloc_topology_t t; hwloc_topology_init(&t); if (hwloc_topology_load(t) == 0) g_native_ref = native_sig(t); hwloc_topology_destroy(t); }
+#endif
 }
 
 static hwloc_topology_t g_keepalive;
@@ -210,11 +217,35 @@ bool h_named(const std::string &name, Case &c) {
 // part B: independent topologies
 struct BThread { Case *c; unsigned idx, nthreads; Barrier *bar; std::string dump, xml; bool loaded, structural; pthread_t th; };
 
+// what a native discovery found, without anything that moves between two loads of a live machine (memory sizes): discovery components and object counts
+static std::string native_sig(hwloc_topology_t t) {
+  std::string s; struct hwloc_infos_s *ti = hwloc_topology_get_infos(t); const char *b = ti ? hwloc_get_info_by_name(ti, "Backend") : NULL; if (!b) b = hwloc_obj_get_info_by_name(hwloc_get_root_obj(t), "Backend");
+  s = strf("Backend=%s depth=%d", b ? b : "(none)", hwloc_topology_get_depth(t));
+  for (int ty = 0; ty < HWLOC_OBJ_TYPE_MAX; ty++) { int n = hwloc_get_nbobjs_by_type(t, (hwloc_obj_type_t)ty); if (n) s += strf(" %s*%d", hwloc_obj_type_string((hwloc_obj_type_t)ty), n); }
+  return s;
+}
+
 static void run_history(Case &c, unsigned idx, unsigned nthreads, Barrier *bar, std::string &dump, std::string &xml, bool &loaded, bool &structural, std::string *desc) {
   Draw d = c.head; d.pos = 40 + (size_t)idx * 160;   // a private window of the header for this thread's TopoSpec
   SpecOpts so; so.syn.max_pus = 32; so.misc_keep = true; TopoSpec sp = gen_topospec(d, so);
+  // per-topology discovery configuration: hwloc_topology_set_components() blacklists a component for ONE topology; other topologies of the process,
+  // in particular those that discover the machine natively at the same time, must not notice
+  static const char *BL[] = {"linux", "x86", "no_os", "pci", "linux:0x3", "xml", "synthetic", "linuxio", "linux:cpu", "x86:0x1"};
+  int blk = d.chance(1, 3) ? d.range(0, 9) : -1;
+  // at most one thread of a case discovers the machine natively: two concurrent native discoveries race on the function-static size caches of
+  // hwloc__read_path_as_cpumask() (finding F-C17-b, open; the named case F-C17-b runs exactly that)
+  bool native; { Draw g = c.head; g.pos = 30; int ni = g.chance(1, 2) ? (int)(g.raw() % nthreads) : -1; bool more = g.chance(1, 4); const char *e = getenv("VERIF_INCLUDE_KNOWN"); bool incl = e && strstr(e, "F-C17-b");
+    native = (int)idx == ni; if (!native && ni >= 0 && more && (idx + 1) % nthreads == (unsigned)ni) { if (incl) native = true; else if (!bar) c.excluded("F-C17-b"); } }
   hwloc_topology_t t; hwloc_topology_init(&t);
   if (bar) bar->wait();
+  if (blk >= 0) { int br = hwloc_topology_set_components(t, HWLOC_TOPOLOGY_COMPONENTS_FLAG_BLACKLIST, BL[blk]); if (desc) { c.descf("\n thread %u: blacklist(%s)=%d", idx, BL[blk], br); c.cls("config:blacklist"); } }
+  if (native) {   // a native discovery; compared by signature only (no modifying history, nothing that depends on current memory sizes)
+    int l = hwloc_topology_load(t); loaded = l == 0; structural = false; xml.clear();
+    if (l < 0) { hwloc_topology_destroy(t); dump = "(native load failed)"; return; }
+    dump = native_sig(t); if (desc) { c.descf("\n thread %u: native discovery -> %s", idx, dump.c_str()); c.cls("config:native-load"); }
+    { WFError e; wf_check(t, e); if (!e.ok()) c.fail("wf", "thread %u (native): %s", idx, e.msgs[0].c_str()); }
+    if (blk < 0 && !g_native_ref.empty() && dump != g_native_ref) c.fail("independent", "thread %u: a native discovery without any blacklisting found [%s], the process found [%s] before any other topology existed", idx, dump.c_str(), g_native_ref.c_str());
+    hwloc_topology_destroy(t); return; }
   int l = apply_spec_and_load(c, t, sp); loaded = l == 0; structural = false;
   if (desc) c.descf("\n thread %u: %s load=%d", idx, sp.text().c_str(), l);
   if (l < 0) { hwloc_topology_destroy(t); dump = "(load failed)"; xml.clear(); return; }
@@ -254,5 +285,15 @@ void h_run(Case &c) {
   if (nloaded >= 2 && anystruct) c.nontrivial();
   c.cls(strf("threads:%u", nthreads).c_str());
   if (g_keepalive) { c.attempt("export of the topology the main thread keeps, after all threads ended"); (void)export_xml(g_keepalive, 0); hwloc_topology_destroy(g_keepalive); }
+}
+
+bool h_named(const std::string &name, Case &c) {
+  if (name == "F-C17-b") {   // open: concurrent native discoveries (distinct topologies) race on the static caches of hwloc__read_path_as_cpumask()
+    c.desc("warm start (one native load, XML export/import), then 4 threads each loading its own native topology 3 times");
+    warm_start(false); { hwloc_topology_t t; hwloc_topology_init(&t); hwloc_topology_load(t); hwloc_topology_destroy(t); }
+    struct L { static void *run(void *arg) { Barrier *b = (Barrier *)arg; b->wait(); for (int k = 0; k < 3; k++) { hwloc_topology_t t; hwloc_topology_init(&t); hwloc_topology_load(t); hwloc_topology_destroy(t); } return NULL; } };
+    Barrier bar(4); pthread_t th[4]; for (auto &x : th) pthread_create(&x, NULL, L::run, &bar); for (auto &x : th) pthread_join(x, NULL); return true;
+  }
+  return false;
 }
 #endif
